@@ -67,12 +67,26 @@ pub fn run_c05(ctx: &Ctx) -> i32 {
     let mut rep = Report::default();
     let g = Group { name: "limits", cases: ctx.tier.pick(1200, 80_000), budget_s: ctx.tier.pick(45.0, 720.0), exhaustive: false };
     run_group(ctx, &mut rep, &g, |_, seed, trace| c05_case(seed, trace));
+    // 0-RTT with remembered parameters (the C17 worlds): during the early flight the remembered
+    // limits apply, after a rejection the newly negotiated ones - which may be lower
+    let g = Group { name: "zero-rtt", cases: ctx.tier.pick(1500, 60_000), budget_s: ctx.tier.pick(8.0, 120.0), exhaustive: false };
+    run_group(ctx, &mut rep, &g, |_, seed, trace| {
+        let mut o = super::c17::case(seed, Lane::Null, trace, None);
+        o.viol.retain_mut(|v| {
+            let about_limits = v.msg.contains("[C05]") || v.msg.contains("limits are not the newly negotiated ones") || v.msg.contains("STREAM_LIMIT_ERROR") || v.msg.contains("FLOW_CONTROL_ERROR") || v.msg.contains("exceeded stream count") || v.msg.contains("flow control");
+            if about_limits {
+                v.prop = "C05";
+            }
+            about_limits
+        });
+        o
+    });
     finish(
         ctx,
         &rep,
         Finish {
             level: "exploration",
-            rule: "seeded honest worlds on the plaintext lane with stream / connection / stream-count limits drawn from {0,1,63,64,65,16383,16384,16385,...}, windows raised and shrunk and stream limits changed at run time, MAX_* frames delayed / reordered / duplicated / lost with the data, resets, retransmissions, pre-handshake writes. Oracle: an independent credit ledger (peer transport parameters + every MAX_DATA / MAX_STREAM_DATA / MAX_STREAMS frame at the instant the datagram carrying it is delivered) against every STREAM / RESET_STREAM frame decoded from every emitted datagram; write() results; H1 unacked_data <= max(send_window, before); no FLOW_CONTROL / STREAM_LIMIT error between honest peers. Non-trivial = at least one stream frame checked; distinct = coverage fingerprint.".into(),
+            rule: "seeded honest worlds on the plaintext lane with stream / connection / stream-count limits drawn from {0,1,63,64,65,16383,16384,16385,...}, windows raised and shrunk and stream limits changed at run time, MAX_* frames delayed / reordered / duplicated / lost with the data, resets, retransmissions, pre-handshake writes. Oracle: an independent credit ledger (peer transport parameters + every MAX_DATA / MAX_STREAM_DATA / MAX_STREAMS frame at the instant the datagram carrying it is delivered) against every STREAM / RESET_STREAM frame decoded from every emitted datagram; write() results; H1 unacked_data <= max(send_window, before); no FLOW_CONTROL / STREAM_LIMIT error between honest peers. (zero-rtt) the two-connection worlds of C17: limits installed after a 0-RTT rejection equal the server's new parameters, and no honest server closes a resuming client for exceeding them. Non-trivial = at least one stream frame checked; distinct = coverage fingerprint.".into(),
             assumptions: vec!["the ledger is a superset of what the sender may know (a delivered frame the sender discarded still counts), so it can miss, never false-alarm".into()],
             min_evals: ctx.tier.pick(100, 5000),
             min_nontrivial: ctx.tier.pick(50, 1000),
@@ -116,6 +130,8 @@ fn c07_case(seed: u64, lane: Lane, trace: bool) -> CaseOut {
     for ep in vanish {
         h.ops.push((r.below(3_000_000), Op::Vanish { ep }));
     }
+    // junk packets coalesced behind client Initials (each datagram must be credited once)
+    h.net.coalesce_junk_pm = *r.pick(&[0, 0, 500, 1000]);
     let mut w = h.build();
     if trace {
         w.trace = Some(vec![]);
